@@ -1,14 +1,70 @@
-"""C15 — decided by the bounded real-code run of bounded/printers_real.py (see DESIGN.md)."""
+"""C15 — XML formats round-trip; a Jigg XML sentence is self-contained.
+
+Deductive part (PyVC, contracts/printers.py): the span elements `_ConvertToJiggXML.process` writes.  `traverse` is verified against its contract with the
+recursive calls replaced by the contract (structural induction over the tree view): the spans of a subtree are appended in pre-order, span j carrying
+id p + j, its children's ids, its terminal, and the offsets [c, c + nleaves).  `process` is verified against "all spans of the tree, ids continuing after
+those used before, first span = root".  The sentence-level clauses (unique ids also across an n-best list, references resolve, offsets tile, one root)
+are lemmas over the spec function by structural induction.  Reading the XML back (C&C and Jigg readers, ccg2lambda's builder) is decided by the bounded run."""
 import time
+
+from vc.sorts import CheckerError, get_world
+from vc.pyvc import Interp
+from vc import engine
+from vc.engine import verify_contract
+from contracts import cat as catc, printers as pr
 from props import c12
+
 PROP = 'C15'
+
+
+def setup():
+    w = get_world()
+    catc.bind_world(w)
+    table, impls, virtuals = catc.cat_contracts()
+    I = Interp(w, table)
+    pr.install_etree(I)
+    pr.install_etree_jigg(I)
+    cs = [pr.CatMultiValued(), pr.JiggTraverse(), pr.JiggProcess()]
+    for c in cs:
+        I.contracts[c.name] = c
+    return w, I, cs
+
+
+def run_job(kind, key):
+    w, I, cs = setup()
+    if kind == 'contract':
+        c = [x for x in cs if x.name == key][0]
+        recs, npaths = verify_contract(I, c, PROP)
+        for r in recs:
+            r['witness'] = dict(function=c.name)
+        return dict(job=key, records=recs, paths=npaths, lib=sorted(I.used_lib))
+    if kind == 'lemmas':
+        return dict(job=key, records=pr.jigg_lemmas(I, PROP) + pr.jigg_call_site(I, PROP) + pr.view_lemmas(PROP))
+    raise CheckerError(kind)
 
 
 def main(tier='quick', seed=0):
     t0 = time.time()
+    jobs = [('contract', 'depccg/printer/jigg_xml.py::_ConvertToJiggXML.process.traverse'), ('contract', 'depccg/printer/jigg_xml.py::_ConvertToJiggXML.process'), ('lemmas', 'span_rec')]
+    results = engine.run_jobs('props.c15', jobs)
+    records, errors = [], []
+    for r in results:
+        records.extend(r.get('records', []))
+        if r.get('error'):
+            errors.append(f"{r['error']} (job {r['job']})")
+    pr.replay_views(records)
     assumptions = [
-        'bounded stand-in only: run-time contract decode(encode(t)) = view(t) with independent spec decoders, and the repository readers applied to files the encoders wrote, on enumerated derivations (never counted as proved)',
+        'deductive part: the span elements of Jigg XML (ids, child / terminal references, rule labels, begin / end offsets, root, ids continuing across the trees of an n-best list). '
+        'Tree view Leaf | Un | Bin with opaque node tags (category, labels and token hang off the tag), attribute meanings checked against tree.py in C07; '
+        'the recursive calls of traverse are replaced by its contract (structural induction; the induction principle is the meta-rule, also for the lemmas ids / refs over the spec function span_rec)',
+        'assumed contracts: lxml etree.Element / SubElement / set / append / indexing build the elements they are told to; len(tree) = number of words (Tree.__len__ via Tree.leaves); '
+        '_cat_multi_valued(cat) is an opaque function of the category (its text is compared by the bounded run); f-strings of integers are kept as structured text (str(int) injective); '
+        'to_jigg_xml creates one converter per sentence and sends every tree of the n-best list through converter.process (checked on the ast: call-site obligation)',
+        'the token elements of a sentence, the C&C XML reader, the Jigg reader and ccg2lambda\'s tree builder are decided by the BOUNDED stand-in: run-time contract decode(encode(t)) = view(t) with independent spec decoders '
+        'and the repository readers applied to files the encoders wrote, on enumerated derivations (never counted as proved)',
         'lxml serialise/parse round trip preserves tags, attributes and order for XML-representable strings',
     ]
-    extra = dict(functions_under_contract=[], explanation='no contract-level proof was built for this property; the deciding evidence is the bounded run on the real encoders and readers')
-    return c12.finish_with(PROP, tier, seed, t0, [], [], extra, assumptions, ['printers_real.py'], level='exploration')
+    extra = dict(functions_under_contract=['depccg/printer/jigg_xml.py::_ConvertToJiggXML.process', 'depccg/printer/jigg_xml.py::_ConvertToJiggXML.process.traverse',
+                                           'depccg/printer/jigg_xml.py::_ConvertToJiggXML.spid (property, inlined)', 'depccg/printer/jigg_xml.py::to_jigg_xml (call-site shape of the converter)'],
+                 bounded_functions=['depccg/printer/jigg_xml.py::to_jigg_xml (token elements)', 'depccg/printer/xml.py::xml_of', 'depccg/tools/reader.py::read_xml / read_jigg_xml', 'ccg2lambda tree builder'])
+    return c12.finish_with(PROP, tier, seed, t0, records, errors, extra, assumptions, ['printers_real.py'], level='exploration')
